@@ -28,7 +28,12 @@ def register(S):
                    "old(self.stream.sock).outbuf == old(self.stream.sock.outbuf) + "
                    "frame(data, published_flag(data, self.compress))", ["C19"]),
                    "still_open": ("self.stream.sock is old(self.stream.sock)", P5)},
-               raises={"struct.error": {"only_when": "not fits_sent(data, self.compress)", "props": P5, "modifies": [],
+               # the length field has 32 bits.  Which form of the packet has to fit depends on the compression threshold: that is
+               # C19's business (the published format); for delivery (C05 and the others) a refusal is acceptable whenever one of
+               # the two forms does not fit
+               raises={"struct.error": {"only_when": "not fits_sent(data, self.compress)", "only_when_props": ["C19"],
+                                        "only_when_also": [("not fits(data)", ["C05", "C08", "C11", "C12"])],
+                                        "props": P5, "modifies": [],
                                         "state": ["self.stream.sock is old(self.stream.sock)",
                                                   "self.stream.sock.outbuf == old(self.stream.sock.outbuf)"]},
                        "EOFError": {"state": ["self.stream.sock is ClosedFile", "old(self.stream.sock).failed"], "props": P5,
